@@ -264,15 +264,16 @@ func encodeModelFileInto(mf *ModelFile, arch string, prefix int) []byte {
 // so the check does not depend on the machine's zoneinfo files).
 const dstZoneName = "Europe/Berlin"
 
-var dstLoc *time.Location
+// loaded once at program start (tasks of the conc engine build Files concurrently;
+// nothing of the harness may be initialised lazily inside a task)
+var dstLoc = mustLoadDSTZone()
 
-func dstZone() *time.Location {
-	if dstLoc == nil {
-		l, err := time.LoadLocation(dstZoneName)
-		if err != nil {
-			fatalInfra("embedded tz database: %v", err)
-		}
-		dstLoc = l
+func mustLoadDSTZone() *time.Location {
+	l, err := time.LoadLocation(dstZoneName)
+	if err != nil {
+		panic("embedded tz database: " + err.Error())
 	}
-	return dstLoc
+	return l
 }
+
+func dstZone() *time.Location { return dstLoc }
